@@ -320,6 +320,9 @@ class TxChecker:
         return SH.legacy(self.tx, self.n_in, script_code, hash_type, self.H)
 
     def check_sig(self, sig, pubkey, script_code, sigversion):
+        if self.sighash_log is not None and sig:
+            # monitors want to know every digest a (signature, script code) pair commits to, usable key or not
+            self.sighash_log.append((sigversion, sig[-1], script_code, self.sighash(script_code, sig[-1], sigversion)))
         pt = parse_pubkey(pubkey)
         if pt is None:
             return False
@@ -330,8 +333,6 @@ class TxChecker:
         if rs is None:
             return False
         digest = self.sighash(script_code, hash_type, sigversion)
-        if self.sighash_log is not None:
-            self.sighash_log.append((sigversion, hash_type, script_code, digest))
         r, s = rs
         if s > SECP256K1.n // 2:
             s = SECP256K1.n - s
